@@ -697,6 +697,14 @@ fn arange_strategy() -> impl Strategy<Value = Ctor> {
         2 => (real(1000), step(), 0u32..=64).prop_map(|(a, s, k)| Ctor::Arange { a, b: a + k as f64 * s, s }),
         // clearly non-integer ratio
         4 => (real(1000), step(), 0u32..64, 0.05f64..0.95).prop_map(|(a, s, k, fr)| Ctor::Arange { a, b: a + (k as f64 + fr) * s, s }),
+        // ratio a whisker above or below a whole number (fractional part 1e-7 .. 1e-2 or its complement): far outside
+        // rounding noise, so the half-open convention decides — a "snap to the nearest integer" guard does not
+        2 => (-8i32..=8, 1i32..=16, 0u32..=48, -7.0f64..-2.0, any::<bool>()).prop_map(|(ai, si, k, e, below)| {
+            let (a, s) = (ai as f64 / 4.0, si as f64 / 8.0);
+            let f = 10f64.powf(e);
+            let q = if below { (k as f64 + 1.0) - f } else { k as f64 + f };
+            Ctor::Arange { a, b: a + q * s, s }
+        }),
         // stop <= start
         1 => (real(1000), step(), 0.0f64..10.0).prop_map(|(a, s, d)| Ctor::Arange { a, b: a - d * s, s }),
     ]
